@@ -313,6 +313,40 @@ def analyse(job):
                     if sa is not None:
                         check_c03_pair(sa['raw'], sa['min'], 'within-word #%d' % i, stats,
                                        res['violations'], text, shell)
+                # the within-word automata the compiled automaton really carries (what the scripts are made from): each is
+                # the minimised form of one of the within-word expressions' automata -- same language, minimal
+                raws = []
+                for i, sa in enumerate(d['subautomata']):
+                    if sa is not None:
+                        a0, _, _ = autosmt.auto_of_dump(sa['raw'], base_key)
+                        raws.append((i, trim(a0)))
+                for j, sd in enumerate(d['min']['subdfas']):
+                    s0, _, _ = autosmt.auto_of_dump(sd, base_key)
+                    S = trim(s0)
+                    match = None
+                    for (i, R_i) in raws:
+                        if S.keys() == R_i.keys() and autosmt.bisim(S, R_i, stats, kind='bisim-stored-sub')[0]:
+                            match = i
+                            break
+                    if match is None:
+                        res['violations'].append((
+                            'C03', 'stored-within-word-automaton-differs',
+                            'within-word automaton %d carried by the minimised automaton for %s accepts a language that none of the '
+                            'within-word expressions\' automata (before minimisation) accepts' % (j, shell),
+                            {'grammar': text, 'shell': shell, 'stored': sd}))
+                    else:
+                        # (the two dumps number their inputs independently: compared over item keys, not input ids)
+                        payload = {'grammar': text, 'shell': shell, 'automaton': 'stored within-word #%d' % j, 'stored': sd}
+                        u = autosmt.unreachable_state(s0, stats)
+                        if u is not None:
+                            res['violations'].append(('C03', 'unreachable-state', 'stored within-word automaton %d has an unreachable state' % j, payload))
+                        dd = autosmt.dead_state(s0, stats)
+                        if dd is not None:
+                            res['violations'].append(('C03', 'dead-state', 'stored within-word automaton %d has a state from which acceptance is impossible' % j, payload))
+                        pair = autosmt.equivalent_pair(S, stats)
+                        if pair is not None:
+                            res['violations'].append(('C03', 'not-minimal', 'stored within-word automaton %d keeps two states that accept the same continuations' % j,
+                                                      dict(payload, pair=list(pair))))
         except Inconclusive as e:
             row['status'] = 'inconclusive'
             res['inconclusive'].append('%s [%s] %r' % (e, shell, text))
